@@ -3,14 +3,6 @@ import TinsModel.Wire.Wifi.Lemmas
 namespace Tins.Wire.Wifi
 open Tins Tins.Wire
 
-/-- what a parsing constructor hands to an inner class is strictly shorter than its own input (termination of the
-    chain parser) -/
-def InnerShorter (i : Inner) (b : Bytes) : Prop :=
-  match i with
-  | .none => True
-  | .raw r => r.length ≤ b.length
-  | .cls _ r _ => r.length < b.length
-
 namespace Dot11
 
 /-- everything the C01 / C02 / C03 theorems need to know about a successful parse -/
